@@ -42,7 +42,7 @@ for pid in ALL:
         },
         "level_note": "Trusted: CPython's ast module, the statement-level CFG construction in sa/cfg.py, the hand-confirmed "
                       "attribute-type table in sa/resolve.py, and per-clause assumptions: " + "; ".join(m.ASSUMPTIONS),
-        "technique": getattr(m, "TECHNIQUE", "static analysis: AST/CFG path rules (must-precede, must-follow, lock-set, who-may-call, table agreement, guard polarity) + reaching-definitions / return-totality over the anchor files"),
+        "technique": getattr(m, "TECHNIQUE", "static analysis: AST/CFG path rules (must-precede, must-follow, lock-set, who-may-call, table agreement, guard facts with polarity, finite fact tables folded over the code's own tests) on a semantically normalised tree + reaching-definitions / return-totality over the anchor files"),
     })
 
 man = {
@@ -59,9 +59,10 @@ man = {
         "name": "sa",
         "path": "/verif/sa",
         "serves_properties": [c["property_id"] for c in checks],
-        "kind_free_text": "repository-specific static analysers over Python ast (stdlib only): loader, statement CFG with "
-                          "reachability-based dominance queries, intra-package call resolution, lock-set and dataflow helpers, "
-                          "one rule module per property",
+        "kind_free_text": "repository-specific static analysers over Python ast (stdlib only): loader with semantic normalisation towards the "
+                          "pinned shapes (new helpers inlined, new locals propagated, branch orientation), statement CFG with "
+                          "reachability-based dominance queries and atomic guard facts, finite fact tables folded over the code's own "
+                          "tests, intra-package call resolution, lock-set and dataflow helpers, one rule module per property",
     }],
     "checks": checks,
     "not_applicable": na,
